@@ -85,6 +85,13 @@ func scenarios(c *vlib.Ctx) []*slib.Scn {
 			add("serial", modules.C07Params{Scripts: [][]string{{"md2", x, "w", y}}, Tasks: 2, Body: "long2", Serial: true}, vlib.Pick(c, 1, 2))
 		}
 	}
+	// both tasks wait behind a blocker (no call re-arms the schedule handler's timer after task 2 was started from the queue)
+	for _, x := range []string{"q2", "p2", "a2"} {
+		for _, y := range []string{"q1", "p1", "a1"} {
+			add("serial", modules.C07Params{Scripts: [][]string{{"md2", x, y}}, Tasks: 2, Body: "long2", Serial: true, Blocker: true}, vlib.Pick(c, 1, 2))
+			add("serial", modules.C07Params{Scripts: [][]string{{"md1", x, y}}, Tasks: 2, Body: "long2", Serial: true, Blocker: true}, vlib.Pick(c, 1, 2))
+		}
+	}
 	// schedule / cancel on two tasks: every sequence of three calls (a cancelled entry must not hold up the schedule)
 	for _, sq := range seqs([]string{"s51", "s1001", "c1", "s52", "s1002", "c2"}, 3) {
 		if len(sq) == 3 {
